@@ -10,7 +10,14 @@ P1  TLC checks spec/Procs.tla (process lifecycle + the shell-side wait/SIGCHLD
     (`$?` of a pipeline / pipefail, `wait`, 127 for unknown pids) for EVERY
     schedule.  Negative configurations (named wrong orders) MUST fail.
     The same run prints the catalogue {script id, text, expected outcome,
-    deterministic?}.
+    deterministic?}.  The model includes stop / continue of live processes:
+    every kind of foreground child (pipeline member, subshell, command
+    substitution, nested ones) is stopped and continued by a background
+    signaller while its parent waits; with job control off the wait ends only
+    at termination (negative configurations stop_is_finish, fg_stop_is_finish).
+    In the quick tier a few of the larger stop/continue scripts are only listed
+    by TLC (state constraint ModelChecked) and decided by P3 alone; the
+    thorough tier model-checks them as well.
 P3  For every script of that catalogue the harness runs the REAL shell on the
     simulated OS under the controllable scheduler: depth-first over the first
     N choice points, then seeded random schedules.  Every distinct run is
@@ -46,6 +53,7 @@ NEGATIVE = {
     "leak_reader": "Deadlock reached",
     "unblock_no_sigchld": "Deadlock reached",
     "stop_is_finish": r"Invariant Inv\w+ is violated",
+    "fg_stop_is_finish": r"Invariant Inv\w+ is violated",
 }
 
 ACTIONS = ["ASimple", "AProbe", "ARead", "AWrite", "ABigWrite", "AKill", "APubGet", "AAck", "AUnblock", "AForkSub", "AForkCs", "AForkBg", "AForkStage", "AReadEof",
@@ -291,6 +299,7 @@ def run(tier):
         "exhaustive": False,
         "scripts": len(cat),
         "scripts_deterministic": len(det_scripts),
+        "scripts_validated_on_real_runs_only_in_this_tier": sum(1 for e in cat if e.get("px")) if tier == "quick" else 0,
         "scripts_dfs_exhausted_within_depth": dfs_exh,
         "scripts_with_all_schedules_enumerated": sum(1 for s in per_script.values() if s.get("all_schedules")),
         "max_choice_points_of_a_run": max([s.get("max_choice_points", 0) for s in per_script.values()] or [0]),
@@ -305,7 +314,10 @@ def run(tier):
         "known_finding_hits": {k: v[1] for k, v in rep.known_hits.items()},
     }, time.time() - t0, violations=len(rep.violations), assumptions=[
         "processes interleave at the granularity of the simulator (blocking points); the model interleaves finer",
-        "no job control, traps, signals other than SIGCHLD, or stopped children in the script shapes",
+        "the monitor option is off in every script shape (job-controlled foreground jobs are C12/G-module business); "
+        "signals in the scripts: SIGCHLD, TERM (with and without a command trap), STOP and CONT sent by other processes",
+        "external commands cannot run on the simulated OS: the foreground children are subshells, command "
+        "substitutions and pipeline members running built-ins",
         "pids are allocated max+1 by the simulator; the model identifies processes by the same numbering",
         "TLC 1.8.0 and the JSON community module are trusted",
     ])
